@@ -116,6 +116,10 @@ func loadAll(p persistence.Persistence, ids []string) (map[string]string, string
 		if pn, msg := Guard(func() { d, err = p.LoadFanPwmData(mkDataFan(id, nil)) }); pn {
 			return nil, "panic in LoadFanPwmData: " + msg
 		}
+		if err != nil && strings.Contains(err.Error(), "timeout") {
+			// nobody else uses this file: an operation of this very process has kept the database locked
+			return out, "database-locked: load of data/" + id + " failed with: " + err.Error()
+		}
 		if err != nil {
 			out["data/"+id] = loadErrClass(err)
 		} else {
@@ -124,6 +128,9 @@ func loadAll(p persistence.Persistence, ids []string) (map[string]string, string
 		var m map[int]int
 		if pn, msg := Guard(func() { m, err = p.LoadFanPwmMap(id) }); pn {
 			return nil, "panic in LoadFanPwmMap: " + msg
+		}
+		if err != nil && strings.Contains(err.Error(), "timeout") {
+			return out, "database-locked: load of map/" + id + " failed with: " + err.Error()
 		}
 		if err != nil {
 			out["map/"+id] = loadErrClass(err)
@@ -287,6 +294,16 @@ func c14Sequential(ctx *Ctx) {
 		}
 		// every step: re-load all keys of both kinds and compare with the model
 		got, pmsg := loadAll(p, ids)
+		if strings.HasPrefix(pmsg, "database-locked") {
+			// (the load waited for the lock for the whole of bbolt's one-minute limit: one such result ends the batch)
+			sig := "later-load-fails:database-left-locked"
+			if corruptKey != "" {
+				sig += ":by-the-load-that-met-an-undecodable-entry"
+			}
+			fail(sig, pmsg)
+			ctx.Abort = true
+			return
+		}
 		if pmsg != "" {
 			fail("panic:load", pmsg)
 			return
@@ -303,6 +320,11 @@ func c14Sequential(ctx *Ctx) {
 				return
 			}
 			got2, pmsg := loadAll(p, ids)
+			if strings.HasPrefix(pmsg, "database-locked") {
+				fail("later-load-fails:database-left-locked:by-the-load-that-met-an-undecodable-entry", pmsg)
+				ctx.Abort = true
+				return
+			}
 			if pmsg != "" {
 				fail("panic:load", pmsg)
 				return
@@ -1006,6 +1028,9 @@ func c14SaveWhileAnUndecodableEntryIsLoaded(ctx *Ctx) {
 		if saveErr != nil {
 			ctx.Count("saves_during_a_discard_that_reported_an_error", 1)
 			_ = os.RemoveAll(dir)
+			if strings.Contains(saveErr.Error(), "timeout") {
+				break // (a minute each; what kept the database locked is looked at by the sequential histories)
+			}
 			continue
 		}
 		var got, want string
